@@ -85,7 +85,7 @@ def gen_cases(tier, rnd):
        'shield_later'   prefix script r1 -- r2          (r1 non-empty w/o -m/--)
        'base'           prefix target                   companion giving the reference configuration
        'malformed'      anything                        model validation only"""
-    n = 110 if tier == 'quick' else 1500
+    n = 110 if tier == 'quick' else 12000
     cases = []
 
     def add(cls, prefix, target, rest, mode, args):
@@ -170,6 +170,8 @@ def run(tier, seed):
     for k, v in gen.items():
         if v:
             res.obl['failures'].append('translator refused the source (%s): %s' % (k, v))
+    if tier == 'thorough' and not res.obl['failures']:
+        core.thorough_coqchk(res, MODULE)
     impl = core.build_impl()
     tmp = core.SCRATCH_ROOT / 'tmp'
     tmp.mkdir(parents=True, exist_ok=True)
